@@ -99,7 +99,8 @@ def describe(tier):
         },
         "alphabet": {
             "depth_scales": list(DEPTHS),
-            "noise": "normal quantiles of the block's bin count under the affine permutation j -> (a_i j + b_i) mod n per sample, x sd",
+            "noise": "the n normal quantiles of a block of n bins under the affine permutation j -> (a_i j + b_i) mod n per sample i "
+            "(a_i coprime to n, near n / golden ratio, so neighbouring bins get well-spread quantiles), x sd",
             "sex_modes": list(SEX_MODES),
             "reject_kinds": list(REJECT_KINDS),
             "corrections": list(CORRECTIONS),
